@@ -15,7 +15,7 @@ from collections import Counter
 from hypothesis import strategies as st
 
 from props import iter_common
-from vlib import dsops, history
+from vlib import dsops, history, oracles
 from vlib.core import Stage
 
 ID = "C19"
@@ -76,9 +76,14 @@ def run_case(case, ctx):
             if dsops.iface_accepts(iface, "file_parallelism"):
                 opts["file_parallelism"] = fp
             want_len = r["m"] * n + r["r"]
-            prefix = dsops.read_prefix(b.h.ds, split, iface, want_len, **opts)
             what = (f"{iface} split={split} N={n} S={s} shuffle={shuffle} "
                     f"file_parallelism={fp} fmt={desc['fmt']}")
+            ok, prefix = oracles.guarded(
+                ctx, "endless", ("iteration-raised", iface), what,
+                lambda: dsops.read_prefix(b.h.ds, split, iface, want_len,
+                                          **opts))
+            if not ok:
+                continue
             if len(prefix) != want_len:
                 ctx.fail("endless", ("stream-ended", iface),
                          f"{what}: the repeating stream ended after "
